@@ -26,6 +26,11 @@ const A: &[&str] = &[
     // a recursion group whose members show the group's type variables in different orders: the
     // letters must not depend on the order in which the group's functions are finished
     "pub fn main() { 1 }\npub fn f(x, y) { g(y, x) }\npub fn g(a, b) { f(b, a) }\npub fn h(c, d, e) { #(f(c, d), i(e, d, c)) }\npub fn i(s, t, u) { h(u, s, t) }\n",
+    // a recursion group whose members have locals with type variables of their own, without and
+    // with a call to a function imported unqualified (interned before or after the module's own
+    // functions, depending on the history)
+    "pub fn main() { 1 }\npub fn f1(x) { let p = [] f2(x) }\npub fn f2(y) { let q = [] f1(y) }\n",
+    "import b.{inc}\npub fn main() { 1 }\npub fn f1(x) { let p = [] f2(x) }\npub fn f2(y) { let q = [] inc(1) f1(y) }\n",
 ];
 
 const B: &[&str] = &[
